@@ -16,10 +16,10 @@ from harness.util import import_df, js, attempt
 
 df = import_df()
 
-UN_IDS = {"sqrt": 5, "absolute": 0, "conjugate": 3, "sin": 10, "cos": 11, "exp": 12, "tanh": 13, "arctan": 14,
+UN_IDS = {"signbit": 20, "sqrt": 5, "absolute": 0, "conjugate": 3, "sin": 10, "cos": 11, "exp": 12, "tanh": 13, "arctan": 14,
           "square": 15, "negative": 16, "sign": 17, "floor": 18}
 UN_REAL_ONLY = {"sign", "floor"}
-BIN_IDS = {"arctan2": 10, "maximum": 11, "minimum": 12, "hypot": 13}
+BIN_IDS = {"arctan2": 10, "maximum": 11, "minimum": 12, "hypot": 13, "copysign": 14}
 BIN_ALG = {"add": "Add", "subtract": "Sub", "multiply": "Mul", "divide": "Div", "power": "Pow"}
 U_ABS, U_PHASE, U_SQRT, U_ARCCOS, B_POW = 0, 4, 5, 6, 0
 ALG = {"add": "Add", "sub": "Sub", "mul": "Mul", "div": "Div", "pow": "Pow"}
@@ -92,7 +92,27 @@ def num_py(v):
 
 # ------------------------------------------------------------------ building the operands
 DTYPES = {"float": np.float64, "int": np.int64, "complex": np.complex128, "float32": np.float32,
-          "complex64": np.complex64, "int32": np.int32, "int16": np.int16, "uint8": np.uint8, "uint16": np.uint16, "int64": np.int64}
+          "complex64": np.complex64, "int32": np.int32, "int16": np.int16, "uint8": np.uint8, "uint16": np.uint16, "int64": np.int64,
+          "longdouble": np.longdouble, "clongdouble": np.clongdouble}
+EXTENDED = ("longdouble", "clongdouble")
+
+
+def frac_exact(x):
+    """exact rational value of a real number, also of an extended-precision one"""
+    if isinstance(x, np.longdouble):
+        if x == 0:
+            return F(0)
+        mant, ex = np.frexp(x)
+        return F(int(mant * np.longdouble(2) ** 64)) * F(2) ** (int(ex) - 64)
+    return F(float(x))
+
+
+def ld(q):
+    """the extended-precision number with the exact value q (q = double + small dyadic rest)"""
+    q = F(q)
+    a_ = float(q)
+    return np.longdouble(a_) + np.longdouble(float(q - F(a_)))
+
 INT_KINDS = ("int", "int32", "int16", "uint8", "uint16", "int64")
 UNSIGNED = ("uint8", "uint16")
 LOWPREC = ("float32", "complex64")
@@ -117,8 +137,13 @@ def build_mesh(m):
 
 
 def field_array(fd, n):
-    vals = [num_py(v) for v in fd["vals"]]
     dt = DTYPES[fd["dtype"]]
+    if fd["dtype"] in EXTENDED:
+        out = np.zeros(len(fd["vals"]), dtype=dt)
+        for j, v in enumerate(fd["vals"]):
+            out[j] = ld(v[0]) if fd["dtype"] == "longdouble" else ld(v[0]) + ld(v[1]) * np.clongdouble(1j)
+        return out.reshape(*n, fd["nvdim"])
+    vals = [num_py(v) for v in fd["vals"]]
     if fd["dtype"] in INT_KINDS:
         vals = [int(v) for v in vals]
     return np.array(vals, dtype=dt).reshape(*n, fd["nvdim"])
@@ -146,6 +171,11 @@ def ctype_of(e):
 def const_py(e, n):
     """the Python object handed to the implementation for a constant node"""
     ct = ctype_of(e)
+    if ct == "longdouble":
+        if e[0] == "num":
+            return ld(e[2][0])
+        vs = np.array([ld(v[0]) for v in e[2]], dtype=np.longdouble)
+        return vs if e[0] == "vec" else vs.reshape(*n, e[1])
     if e[0] == "num":
         v = num_py(e[2])
         if ct == "pyint":
@@ -323,6 +353,8 @@ def lowprec_consts(e):
 def field_dtype(arr):
     """Field(...) without dtype stores max(dtype, float64)"""
     arr = np.asarray(arr)
+    if arr.dtype.kind in "fc" and arr.dtype.itemsize > (8 if arr.dtype.kind == "f" else 16):
+        return arr.copy()
     return arr.astype(np.complex128) if np.iscomplexobj(arr) else arr.astype(np.float64)
 
 
@@ -411,7 +443,7 @@ def ev_ref(e, ctx):
             ctx.tab2(BIN_IDS[arg], fa, fb, xa, xb, r)
             rex = to_exact(r)
         elif op == "dot":
-            r = np.sum(fa * fb, axis=-1, keepdims=True)
+            r = np.einsum("...l,...l->...", fa, fb)[..., np.newaxis]
             p = xa * xb
             rex = np.empty(p.shape[:-1] + (1,), dtype=object)
             for idx in np.ndindex(*p.shape[:-1]):
@@ -502,7 +534,7 @@ def ev_np(e, leaf_data, n):
     elif op == "uf2":
         r = getattr(np, arg)(a, b)
     elif op == "dot":
-        r = np.sum(np.asarray(a) * np.asarray(b), axis=-1, keepdims=True)
+        r = np.einsum("...l,...l->...", a, b)[..., np.newaxis]
     elif op == "cross":
         a_, b_ = np.broadcast_arrays(np.asarray(a), np.asarray(b))
         r = np.cross(a_, b_)
@@ -525,6 +557,29 @@ def ev_np(e, leaf_data, n):
     if r.ndim != len(n) + 1:
         raise ValueError("result is not a field array")
     return r, np.logical_and(True if va is None else va, True if vb is None else vb), True
+
+
+def zero_signs_equal(got, want):
+    """where both arrays hold a zero, it is the same zero (+0.0 / -0.0), in real and imaginary part"""
+    got, want = np.asarray(got), np.asarray(want)
+    if got.shape != want.shape or got.dtype.kind not in "fc" or want.dtype.kind not in "fc":
+        return True
+    for part in (np.real, np.imag):
+        g_, w_ = part(got), part(want)
+        z = (g_ == 0) & (w_ == 0)
+        if np.any(np.signbit(g_[z]) != np.signbit(w_[z])):
+            return False
+    return True
+
+
+def has_reflected_cross(e):
+    if e[0] == "un":
+        return has_reflected_cross(e[3])
+    if e[0] == "bin":
+        if e[1] == "cross" and is_const(e[3]):
+            return True       # -(self x other): numpy's other x self has the opposite zeros
+        return has_reflected_cross(e[3]) or has_reflected_cross(e[4])
+    return False
 
 
 def same_pattern(got, want, rel):
@@ -930,9 +985,17 @@ def shifted_mesh(m, how, rng):
         else:
             p2[ax] += d
     elif how == "far":
-        sh = F(rng.choice([1, 5, -3]))
+        sh = F(rng.choice([1, 5, -3])) * edge
         p1 = [x + sh for x in p1]
         p2 = [x + sh for x in p2]
+    elif how == "cell":          # moved by exactly one cell along one axis
+        ax = rng.randrange(len(p1))
+        d = (p2[ax] - p1[ax]) / n[ax]
+        p1[ax] += d
+        p2[ax] += d
+    elif how == "ten":           # one edge 10 % longer
+        ax = rng.randrange(len(p1))
+        p2[ax] += (p2[ax] - p1[ax]) / 10
     elif how == "scaled":
         p2 = [a + 2 * (b - a) for a, b in zip(p1, p2)]
     elif how == "dims":
@@ -942,7 +1005,7 @@ def shifted_mesh(m, how, rng):
         ax = rng.randrange(len(n))
         n[ax] += 1
     elif how == "ndim":
-        p1, p2, n = p1 + [F(0)], p2 + [F(1)], n + [1]
+        p1, p2, n = p1 + [F(0)], p2 + [edge], n + [1]
         dims = None if dims is None or len(p1) > 3 else None
         if len(p1) > 3:
             dims = [f"d{i}" for i in range(len(p1))]
@@ -955,10 +1018,17 @@ def reject_case(rng, tier):
     """binary operations whose operands live on two meshes / have incompatible component counts"""
     regime = "exact"
     m0 = gen_mesh(rng, tier)
-    how = rng.choice(["equal", "near", "off", "far", "scaled", "dims", "n", "ndim", "nvdim", "nvdim"])
+    msc = rng.choice([None, None, None, -9, -9, -12, -10, -6, 3])     # geometry at nm ... pm scales as well
+    if msc is not None:
+        f_ = F(10) ** msc
+        m0["p1"] = [g.qs(F(float(F(x) * f_))) for x in m0["p1"]]
+        m0["p2"] = [g.qs(F(float(F(x) * f_))) for x in m0["p2"]]
+        m0["ptype"] = "float"
+    how = rng.choice(["equal", "near", "off", "far", "scaled", "dims", "n", "ndim", "nvdim", "nvdim", "cell", "ten",
+                      "cell", "ten"])
     meshes = [m0, shifted_mesh(m0, how if how != "nvdim" else "equal", rng)]
     gen = Gen(rng, tier, regime, meshes, allow_cplx=False)
-    op = rng.choice(["add", "sub", "mul", "div", "dot", "cross", "angle", "stack", "uf2", "uf2"])
+    op = rng.choice(["add", "sub", "mul", "div", "dot", "cross", "angle", "stack", "stack", "stack", "uf2", "uf2"])
     ka = rng.choice([1, 2, 3, 4])
     kb = ka if rng.random() < 0.6 else rng.choice([1, 2, 3, 4])
     if how == "nvdim":
@@ -991,7 +1061,7 @@ def reject_case(rng, tier):
         compat = ka == kb
     expect = "accept" if (same and compat) else ("free" if same is None else "reject")
     return dict(kind="reject", regime=regime, meshes=meshes, fields=gen.fields, expr=e, expect=expect,
-                how=how, nv=[ka, kb], clearly_different=how in ("off", "far", "scaled", "dims", "n", "ndim"),
+                how=how, nv=[ka, kb], clearly_different=how in ("off", "far", "scaled", "dims", "n", "ndim", "cell", "ten"), msc=msc,
                 incompatible=not compat)
 
 
@@ -1220,6 +1290,122 @@ def arraylike_case(rng, tier):
     return dict(kind="arraylike", regime=regime, meshes=meshes, fields=gen.fields, expr=e, expect="accept")
 
 
+def coincide_case(rng, tier):
+    """value coincidences: constants / second operands drawn from the field's own cell values, so that
+    differences are exact zeros whose SIGN numpy defines; continued with sign-sensitive steps"""
+    meshes = [gen_mesh(rng, tier)]
+    while math.prod(meshes[0]["n"]) < 2:
+        meshes = [gen_mesh(rng, tier)]
+    ncell = math.prod(meshes[0]["n"])
+    gen = Gen(rng, tier, "exact", meshes, allow_cplx=False)
+    k = rng.choice([1, 1, 2, 3])
+    a = gen.leaf(k, dtype="float", reuse=False)
+    fa = gen.fields[a[1]]
+    cell = rng.randrange(ncell)
+    kind = rng.choice(["num", "vec", "arr", "leaf"]) if k > 1 else rng.choice(["num", "num", "arr", "leaf"])
+    if kind == "num":
+        b = ["num", bool(rng.random() < 0.3), list(fa["vals"][cell * k + rng.randrange(k)])]
+    elif kind == "vec":
+        b = ["vec", bool(rng.random() < 0.3), [list(v) for v in fa["vals"][cell * k:(cell + 1) * k]],
+             rng.choice(["tuple", "list"])]
+    elif kind == "arr":
+        vals = [list(v) if rng.random() < 0.5 else rnum(rng, "exact") for v in fa["vals"]]
+        b = ["arr", k, vals]
+    else:
+        b = gen.leaf(k, dtype="float", reuse=False)
+        fb = gen.fields[b[1]]
+        fb["vals"] = [list(v) if rng.random() < 0.5 else w for v, w in zip(fa["vals"], fb["vals"])]
+    form = rng.choice(["b-a", "b-a", "a-b", "b+(-a)", "np.subtract(b,a)", "a*0"])
+    if form == "b-a":
+        d = ["bin", "sub", None, b, a]
+    elif form == "a-b":
+        d = ["bin", "sub", None, a, b]
+    elif form == "b+(-a)":
+        d = ["bin", "add", None, b, ["un", "neg", None, a]]
+    elif form == "np.subtract(b,a)":
+        if is_const(b) and b[0] == "vec":
+            b[1] = True
+        d = ["bin", "uf2", "subtract", b, a]
+    else:
+        d = ["bin", "mul", None, ["un", "neg", None, a], ["num", False, ["0/1", "0/1"]]]
+    cont = rng.choice(["none", "none", "1/x", "1/x", "arctan2", "copysign", "signbit", "neg"])
+    oracle_only = cont in ("arctan2", "copysign", "signbit")     # the sign of zero is not a rational
+    if cont == "1/x":
+        e = ["bin", "div", None, ["num", False, ["1/1", "0/1"]], d]
+    elif cont == "arctan2":
+        e = ["bin", "uf2", "arctan2", d, ["num", True, ["-1/1", "0/1"]]]
+    elif cont == "copysign":
+        e = ["bin", "uf2", "copysign", ["num", True, ["3/1", "0/1"]], d]
+    elif cont == "signbit":
+        e = ["un", "uf1", "signbit", d]
+    elif cont == "neg":
+        e = ["un", "neg", None, d]
+    else:
+        e = d
+    return dict(kind="coincide", regime="exact", meshes=meshes, fields=gen.fields, expr=e, expect="accept",
+                oracle_only=oracle_only, form=form, cont=cont)
+
+
+def extended_case(rng, tier):
+    """extended-precision (np.longdouble / np.clongdouble) fields: result dtype and values compared exactly
+    with the numpy expression evaluated in long double (oracle-only: no Coq record)"""
+    meshes = [gen_mesh(rng, tier)]
+    ncell = math.prod(meshes[0]["n"])
+    gen = Gen(rng, tier, "exact", meshes, allow_cplx=False)
+
+    def ldval():
+        r = rng.random()
+        if r < 0.35:
+            x = np.longdouble(rng.randint(1, 9)) / np.longdouble(rng.choice([3, 7, 9, 11]))     # e.g. 1/3 in long double
+        elif r < 0.7:
+            x = np.longdouble(rng.randint(-9, 9)) + np.longdouble(2) ** -60 * rng.choice([1, -1, 3])
+        else:
+            x = np.longdouble(rng.randint(1, 24)) / 4
+        return g.qs(frac_exact(x))
+
+    def leaf(nv, dtype):
+        fd = gen_field(rng, 0, meshes, nv, "exact", "float")
+        fd["dtype"] = dtype
+        fd["vals"] = [[ldval(), ldval() if dtype == "clongdouble" else "0/1"] for _ in range(ncell * nv)]
+        gen.fields.append(fd)
+        return ["leaf", len(gen.fields) - 1]
+    k = rng.choice([1, 2, 3])
+    a = leaf(k, rng.choice(["longdouble", "longdouble", "clongdouble"]))
+    form = rng.choice(["un", "num", "vec", "ldarr", "leaf", "leaf64", "dot", "stack", "ufunc", "uf1", "comp"])
+    if form == "un":
+        e = ["un", rng.choice(["neg", "abs", "real", "imag", "conj", "pos"]), None, a]
+    elif form == "uf1":
+        e = ["un", "uf1", rng.choice(["square", "negative", "absolute", "exp", "sin"]), a]
+    elif form == "comp":
+        e = ["un", "comp", rng.randrange(k), a] if k > 1 else ["un", "neg", None, a]
+    else:
+        op = rng.choice(["add", "sub", "mul", "div"])
+        if form == "num":
+            b = ["num", False, rnum(rng, "scale")]
+        elif form == "vec":
+            b = ["vec", bool(rng.random() < 0.5), [rnum(rng, "scale") for _ in range(k)], "tuple"]
+        elif form == "ldarr":
+            b = ["arr", k, [[ldval(), "0/1"] for _ in range(ncell * k)], "longdouble"]
+        elif form == "leaf64":
+            b = gen.leaf(rng.choice([1, k]), dtype=rng.choice(["float", "int", "float32"]), reuse=False)
+        else:
+            b = leaf(rng.choice([1, k]) if form in ("leaf", "ufunc") else k, "longdouble")
+        if form == "dot":
+            e = ["bin", "dot", "m", a, b]
+        elif form == "stack":
+            e = ["bin", "stack", None, a, b]
+        elif form == "ufunc":
+            e = ["bin", "uf2", rng.choice(["add", "multiply", "subtract", "divide", "hypot", "maximum"]), a, b]
+            if e[2] in ("hypot", "maximum"):
+                gen.fields[a[1]]["dtype"] = "longdouble"
+                for v in gen.fields[a[1]]["vals"]:
+                    v[1] = "0/1"
+        else:
+            e = ["bin", op, None, a, b] if rng.random() < 0.6 else ["bin", op, None, b, a]
+    return dict(kind="extended", regime="exact", meshes=meshes, fields=gen.fields, expr=e, expect="accept",
+                oracle_only=True)
+
+
 def generate(rng, tier):
     cases = []
     q = tier == "quick"
@@ -1241,6 +1427,10 @@ def generate(rng, tier):
         cases.append(nonfinite_case(rng, tier))
     for _ in range(110 if q else 600):
         cases.append(arraylike_case(rng, tier))
+    for _ in range(100 if q else 500):
+        cases.append(coincide_case(rng, tier))
+    for _ in range(80 if q else 400):
+        cases.append(extended_case(rng, tier))
     return cases
 
 
@@ -1351,8 +1541,58 @@ def vec_labels(f):
     return (None if f.vdims is None else tuple(f.vdims), tuple(sorted(f.vdim_mapping.items())))
 
 
+def run_oracle_only(c, rec):
+    """cases outside the rational model (signed zeros as data, extended precision): the implementation's raw
+    array, dtype and validity against plain numpy on the same operand arrays, exactly"""
+    meshes = [build_mesh(m) for m in c["meshes"]]
+    leaves = [build_field(fd, meshes) for fd in c["fields"]]
+    e = c["expr"]
+    n = [int(k) for k in meshes[0].n]
+    consts = make_consts(e, n)
+    before = ([snapshot(f) for f in leaves], const_snapshot(consts))
+    st, r = attempt(lambda: ev_impl(e, leaves, n, consts))
+    st2, r2 = attempt(lambda: ev_impl(e, leaves, n, consts))
+    after = ([snapshot(f) for f in leaves], const_snapshot(consts))
+    if before[0] != after[0]:
+        rec["oracle"].append("operand-modified")
+    if before[1] != after[1]:
+        rec["oracle"].append("constant-argument-modified")
+    if (st2 == "ok") != (st == "ok") or (st == "ok" and not same_result(r, r2)):
+        rec["oracle"].append("repeat-differs")
+    obs = dict(status=st, err=None if st == "ok" else r)
+    leaf_data = [(np.array(f.array, copy=True), np.array(f.valid, copy=True)) for f in leaves]
+    want = None
+    try:
+        with np.errstate(all="ignore"):
+            want, want_valid, _ = ev_np(e, leaf_data, n)
+    except Exception as ex:  # noqa: BLE001
+        obs["numpy"] = type(ex).__name__
+    if st == "ok" and isinstance(r, df.Field) and want is not None:
+        obs.update(dtype=str(r.array.dtype), want_dtype=str(want.dtype))
+        extended = any(fd["dtype"] in EXTENDED for fd in c["fields"])
+        if extended and r.array.dtype != want.dtype:
+            rec["oracle"].append("result-dtype-differs")
+        if r.array.shape != want.shape or not np.array_equal(r.array.astype(want.dtype), want, equal_nan=True):
+            rec["oracle"].append("array-not-cellwise")
+        elif not zero_signs_equal(r.array, want):
+            rec["oracle"].append("zero-sign-differs")
+        if not np.array_equal(r.valid, want_valid if want_valid is not None else np.ones(n, bool)):
+            rec["oracle"].append("validity-not-and-of-operands")
+        for f in leaves:
+            if r is not f and (np.shares_memory(r.array, f.array) or np.shares_memory(r.valid, f.valid)):
+                rec["oracle"].append("result-aliases-operand")
+    elif st != "ok" and want is not None and c.get("expect") == "accept":
+        rec["oracle"].append("valid-expression-rejected")
+    rec.update(obs=obs, coq=None, key=f'{c["kind"]}/{st}/{shape_key(e, c)}', nontrivial=True,
+               size=sum(len(fd["vals"]) for fd in c["fields"]))
+    rec["oracle"] = sorted(set(rec["oracle"]))
+    return rec
+
+
 def run_case(c):
     rec = dict(kind=c["kind"], case=c, oracle=[], tags=[])
+    if c.get("oracle_only"):
+        return run_oracle_only(c, rec)
     meshes = [build_mesh(m) for m in c["meshes"]]
     if c.get("own_mesh"):
         # every field on its own (equal) Mesh object, so that in-place mesh changes can be applied per field
@@ -1428,6 +1668,8 @@ def run_case(c):
                 low = 1e-4 if ctx.rel > 1e-9 else 1e-9
                 if not same_pattern(r.array, want, low):
                     rec["oracle"].append("array-not-cellwise-nonfinite")
+                elif not has_reflected_cross(e) and not zero_signs_equal(r.array, want):
+                    rec["oracle"].append("zero-sign-differs")
                 if not np.array_equal(r.valid, want_valid if want_valid is not None else np.ones(n, bool)):
                     rec["oracle"].append("validity-not-and-of-operands")
                 obs["nonfinite_compared"] = True
@@ -1464,6 +1706,8 @@ def run_case(c):
                 d = np.abs(arr.astype(complex) - ref.fl.astype(complex))
                 if (exact and not np.array_equal(arr, ref.fl)) or np.any(d > 10 * tol):
                     rec["oracle"].append("array-not-cellwise")
+            if arr.shape == ref.fl.shape and not has_reflected_cross(e) and not zero_signs_equal(arr, ref.fl):
+                rec["oracle"].append("zero-sign-differs")
             if not np.array_equal(r.valid, ref.valid if ref.valid is not None else np.ones(n, bool)):
                 rec["oracle"].append("validity-not-and-of-operands")
             used = sorted(set(ref.leaves))
